@@ -21,6 +21,11 @@ is LOST (exit 1).  It keeps a scoped table of local names with their kind; a `le
                    if let Some(b) = self.buckets.last_mut()[.filter(|p| c)] { .. } [else { .. }]
                    for b in &mut self.buckets { b.clear(); }
                    let p = self.items.as_ptr().add(e);   let t = slice::from_raw_parts_mut(p, e);   t.copy_from_slice(STR);
+                   ptr::copy_nonoverlapping(STR.as_ptr(), p, e);   (= from_raw_parts_mut(p, e).copy_from_slice(STR))
+                   let x = <NonZeroUsize value>;
+  Before lowering, every function body goes through astx.py: several inherent impl blocks are merged, calls of private helpers of
+  the same file are inlined (early returns keep their meaning), a few idioms are normalised (match with a guard on last_mut() =
+  .filter(..), `Ok(b.push_slice(..))`, `from_utf8_unchecked(slice::from_raw_parts(p, n))`, ...).
   results          Ok("") | Ok(r) | Ok(()) | Err(LassoError::new(LassoErrorKind::K)) | <number> | <boolean>
                    | core::str::from_utf8_unchecked(t)
 """
@@ -258,10 +263,33 @@ class Fn:
                 if self.rkind != "unit": self.lost(e, "`if` without `else` as the value of a non-unit function")
                 return [("if", self.boolean(e[2]), self.block(e[3], True), [], e[1])]
             return [("if", self.boolean(e[2]), self.block(e[3], True), self.tail(e[4]), e[1])]
+        if k == "iflet":
+            return self.iflet(e, True)
         if k == "return":
             return self.expr_stmt(e, e[1])
         if self.rkind == "unit":
             return self.expr_stmt(e, e[1])
+        return self.ret_stmts(e)
+
+    def ret_stmts(self, e):
+        """`return e` / a tail value e: a few values need a statement in front of the IR's return"""
+        e0 = strip(e)
+        # Ok(b.push_slice(STR))   =   let r = b.push_slice(STR); Ok(r)
+        if self.rkind == "res_str" and e0[0] == "call" and is_path(e0[2], "Ok") and len(e0[3]) == 1 \
+                and strip(e0[3][0])[0] == "mcall" and strip(e0[3][0])[3] == "push_slice":
+            r = "pushed@%d" % e0[1]
+            st = self.let(("let", e0[1], ("pbind", e0[1], r, False), None, e0[3][0]))
+            return st + [("s", "SReturn (ROkRef %s)" % q(r), e0[1])]
+        # from_utf8_unchecked(slice::from_raw_parts(p, n))   =   let t = from_raw_parts_mut(p, n); from_utf8_unchecked(t)
+        if self.rkind == "str" and e0[0] == "call" and e0[2][0] == "path" and names_of(e0[2])[-2:] == ["str", "from_utf8_unchecked"] \
+                and len(e0[3]) == 1:
+            c = strip(e0[3][0])
+            if c[0] == "call" and c[2][0] == "path" and names_of(c[2])[-2:] == ["slice", "from_raw_parts"] and len(c[3]) == 2:
+                t = "raw@%d" % e0[1]
+                p = self.var_of(c[3][0], ("ptr",), "a pointer variable")
+                self.sc.bind(t, "rawslice", e0[1])
+                return [("s", "SLetRawSlice %s %s (%s)" % (q(t), q(p), self.num(c[3][1])), e0[1]),
+                        ("s", "SReturn (RUtf8 %s)" % q(t), e0[1])]
         return [("s", "SReturn (%s)" % self.result(e), e[1])]
 
     def let(self, st):
@@ -279,6 +307,12 @@ class Fn:
             self.sc.bind(x, "bucket", ln)
             return [("s", "SNewBucketQ %s (%s)" % (q(x), z), ln)]
         if mut: self.lost(st, "`let mut` of something that is not a new Bucket")
+        # let x = <NonZeroUsize value>;
+        if self.ctx == "arena" and ((e[0] == "call" and is_path(e[2], "NonZeroUsize", "new_unchecked")) or
+                                    (e[0] == "try" and strip(e[2])[0] == "mcall" and strip(e[2])[3] == "ok_or_else")):
+            z = self.nz(e)
+            self.sc.bind(x, "nz", ln)
+            return [("s", "SLetNZ %s (%s)" % (q(x), z), ln)]
         if e[0] == "mcall":
             recv, name, args = strip(e[2]), e[3], e[4]
             # let r = unsafe { b.push_slice(STR) };
@@ -321,12 +355,22 @@ class Fn:
                 els = self.block(e[4], False) if e[4][0] == "block" else self.expr_stmt(e[4], e[4][1])
             return [("if", self.boolean(e[2]), self.block(e[3], False), els, e[1])]
         if k == "iflet":
-            return self.iflet(e)
+            return self.iflet(e, False)
         if k == "return":
             if e[2] is None:
                 if self.rkind != "unit": self.lost(e, "`return;` in a non-unit function")
                 return [("s", "SReturn RUnit", e[1])]
-            return [("s", "SReturn (%s)" % self.result(e[2]), e[1])]
+            return self.ret_stmts(e[2])
+        # ptr::copy_nonoverlapping(STR.as_ptr(), p, n)   =   from_raw_parts_mut(p, n).copy_from_slice(STR)
+        if k == "call" and e[2][0] == "path" and names_of(e[2])[-1] == "copy_nonoverlapping" and names_of(e[2])[-2:-1] in ([], ["ptr"]) \
+                and len(e[3]) == 3 and self.ctx == "bucket":
+            src = strip(e[3][0])
+            if not (src[0] == "mcall" and src[3] == "as_ptr" and not src[4]): self.lost(e, "copy source is not <bytes>.as_ptr()")
+            self.var_of(src[2], ("str",), "the byte slice argument as copy source")
+            p = self.var_of(e[3][1], ("ptr",), "a pointer variable as copy destination")
+            t = "copy@%d" % e[1]
+            self.sc.bind(t, "rawslice", e[1])
+            return [("s", "SLetRawSlice %s %s (%s)" % (q(t), q(p), self.num(e[3][2])), e[1]), ("s", "SCopyFromSlice %s" % q(t), e[1])]
         if k == "macro":
             if e[2] == "debug_assert" and len(e[3]) == 1:
                 return [("s", "SAssert (%s)" % self.boolean(e[3][0]), e[1])]
@@ -378,7 +422,7 @@ class Fn:
             self.lost(e, "`for` loop other than `for b in &mut self.buckets { b.clear(); }`")
         self.lost(e, "statement form `%s` is outside the subset" % k)
 
-    def iflet(self, e):
+    def iflet(self, e, tail_returns=False):
         _, ln, pat, scrut, then, els = e
         if self.ctx != "arena": self.lost(e, "`if let` outside Arena")
         if not (pat[0] == "ptuplestruct" and is_path(pat[2], "Some") and len(pat[3]) == 1 and pat[3][0][0] == "pbind" and not pat[3][0][3]):
@@ -395,11 +439,12 @@ class Fn:
         if not (s[0] == "mcall" and s[3] == "last_mut" and not s[4] and is_self_field(strip(s[2]), "buckets")):
             self.lost(e, "`if let` scrutinee is not self.buckets.last_mut()[.filter(|b| ..)]")
         self.sc.push(); self.sc.bind(bname, "bucketref", ln)
-        t = self.stmts(then, False)
+        t = self.stmts(then, tail_returns)
         self.sc.pop()
         el = []
         if els is not None:
-            el = self.block(els, False) if els[0] == "block" else self.expr_stmt(els, els[1])
+            if els[0] == "block": el = self.block(els, tail_returns)
+            else: el = self.tail(els) if tail_returns else self.expr_stmt(els, els[1])
         return [("iflast", pname, cond, bname, t, el, ln)]
 
 
@@ -444,14 +489,16 @@ class Unit:
         if got != fields or len(st[4]) != len(fields):
             self.lost(st[1], "struct %s does not have exactly the fields %s (found %s)" % (tyname, fields, got))
         impls = [i for i in self.items if i[0] == "impl" and i[3]["trait"] is None and i[3]["self"] == tyname]
-        if len(impls) != 1: self.lost(st[1], "expected exactly one inherent `impl %s`" % tyname)
-        im = impls[0]
-        if im[3]["generics"] or im[3]["where"] or any(a.startswith("cfg") for a in im[2]):
-            self.lost(im[1], "generic or conditional `impl %s`" % tyname)
+        if not impls: self.lost(st[1], "no inherent `impl %s`" % tyname)
         self.fns = {}
-        for it in im[4]:
-            if it[0] != "fn": continue
-            self.fns.setdefault(it[3], []).append(it)
+        for im in impls:                      # several inherent impl blocks of one type are merged
+            if im[3]["generics"] or im[3]["where"] or any(a.startswith("cfg") for a in im[2]):
+                self.lost(im[1], "generic or conditional `impl %s`" % tyname)
+            for it in im[4]:
+                if it[0] != "fn": continue
+                self.fns.setdefault(it[3], []).append(it)
+        self.keep = lambda ty, name, node: False
+        self.inlined = set()
         # a second definition of the type's methods anywhere else in the file would escape us
         for i in self.items:
             if i[0] == "skipped" and i[3] == "macro":
@@ -486,12 +533,19 @@ class Unit:
             for (p, _t), kd in zip([x for x in f[4] if x[0] != "self"], kinds):
                 fnl.sc.bind(p, kd, f[1])
                 if kd in ("num", "nz"): params.append(p)
-            body = self.parser.fn_body(f)
+            body = self.body(f)
             out = fnl.stmts(body, True)
             if rkind == "unit": out.append(("s", "SReturn RUnit", f[7]))
         except Lost as e:
             e.file = self.path; raise
         return params, out, fnl
+
+    def body(self, f):
+        """the function's body with the private helpers of the file inlined and the idioms normalised (astx.py)"""
+        import astx
+        b, inl = astx.prepare(self.parser, self.items, f, self.ty, self.keep)
+        self.inlined |= set(inl)
+        return b
 
     def emit_fun(self, name, f, params, stmts):
         return "(* %s:%d-%d  fn %s *)\nDefinition %s : fundef := mkFun [%s]\n  (%s).\n" % (
